@@ -86,7 +86,10 @@ def lib_identity(r: Any) -> Tuple:
 
 def build_datagram(records: Sequence[Tuple[Tuple, int, bool]], id_: int = 0, compress: Any = "full") -> bytes:
     """records: [(vocab_record, ttl, flush)]"""
-    return wire.build(id_=id_, flags=0x8400,
+    # header bits that mean nothing in a response (TC, no AA, RA, an rcode) in one datagram out of five, chosen from the id so
+    # that the history stays reproducible
+    flags = (0x8400, 0x8600, 0x8000, 0x8480, 0x8403)[id_ % 5] if id_ % 5 == id_ % 7 else 0x8400
+    return wire.build(id_=id_, flags=flags,
                       answers=[(r[1], TYPE_OF[r[0]], 0x8001 if flush else 1, ttl, wire_rdata(r)) for r, ttl, flush in records],
                       compress=compress)
 
@@ -334,7 +337,7 @@ def gen_history(rng: random.Random, length: int, voc: List[Tuple], listeners: bo
                 ms = rng.choice([rng.randrange(0, 3000), rng.randrange(0, 20000), rng.randrange(0, 5_000_000)])
             steps.append(("adv", ms))
         else:
-            steps.append(("listener", rng.choice(["add", "remove", "add-churner", "remove-self-in-cb", "add-in-cb", "remove-other-in-cb"])))
+            steps.append(("listener", rng.choice(["add", "remove", "add-churner", "remove-self-in-cb", "add-in-cb", "remove-other-in-cb", "add-again"])))
     return steps
 
 
@@ -568,6 +571,11 @@ class Harness:
             reg = self.registered_now()
             if reg:
                 rm.async_remove_listener(reg[0])
+        elif what == "add-again":
+            # registering a listener that is registered already changes nothing: it is still called exactly once
+            reg = self.registered_now()
+            if reg:
+                rm.async_add_listener(reg[-1], None)
         self.res.cls("listener", what)
 
     def do_purge(self, sim: Any, model: CacheModel, v5, v6, purged_once: Dict[int, int], where: str, at: Optional[float] = None) -> None:
